@@ -22,17 +22,26 @@ func evalC14via(in []byte, via string) (vs []*Violation, accepted bool) {
 	if via != "" {
 		site = "URIParseCmp"
 	}
+	// the components are compared with the input as the caller wrote it: the parser works on a copy
+	pristine := in
+	in = append(make([]byte, 0, len(in)), in...)
 	add := func(rule, class, detail string) {
-		c := mkCase("C14", site, nil, in, nil)
+		c := mkCase("C14", site, nil, pristine, nil)
 		if via != "" {
 			c.Extra = map[string]any{"via": via}
 			class = via + "/" + class
 		}
 		vs = append(vs, &Violation{Property: "C14", Site: site, Rule: rule, Class: class, Detail: detail, Case: c})
 	}
+	defer recoverTo3(add)
 	var u sipsp.PsipURI
 	var err sipsp.ErrorURI
 	var n int
+	defer func() {
+		if !bytes.Equal(in, pristine) {
+			add("concatenation-reproduces-input", "input-buffer-modified", fmt.Sprintf("the parser changed the caller's buffer: %q -> %q", pristine, in))
+		}
+	}()
 	_, pm := guarded(func() string {
 		switch via {
 		case "":
